@@ -57,6 +57,9 @@ def table_stage(ctx: Ctx, dialects, spark_exec=None):
                     a, b = D.probe_values(execs["duckdb"], r["sqlname"]), D.probe_values(execs[d], o["sqlname"])
                 except Exception as e:
                     ctx.obligation(f"probe {r['role']} on {d}", False, repr(e)[:200])
+                    ctx.violation(f"{d}: the function emitted for role {r['role']} cannot be evaluated on the probe pairs: {e!r}"[:300],
+                                  {"case": {"dialect": d, "role": r["role"], "sql": o["sql"]}, "implementation": repr(e)[:300],
+                                   "specification": "evaluates like the DuckDB function of the role"}, {"dialect": d, "role": r["role"], "raises": True})
                     continue
                 k = next((i for i, (x, y) in enumerate(zip(a, b)) if abs(x - y) > 1e-9), None)
                 ctx.obligation(f"{r['role']}: {o['sqlname']} on {d} = {r['sqlname']} on duckdb on {len(a)} metric-distinguishing pairs", k is None)
@@ -233,6 +236,7 @@ From Splinkv Require Import Base.TV Model.SqlExpr Model.Levels Model.Backends.
 Import ListNotations. Open Scope string_scope.
 """
     terms, metas, pyonly_bad = [], [], []
+    untranslated_c = set()
     for kind, base, sql in CUSTOM_SQL:
         for d in ("duckdb", "sqlite", "spark"):
             if d == "sqlite" and ("arr" in sql):
@@ -242,6 +246,12 @@ Import ListNotations. Open Scope string_scope.
                 got = emitted_custom(kind, base, sql, d)
             except Exception as e:
                 ctx.obligation(f"custom {kind} [{base}] {sql} on {d}", False, repr(e)[:200])
+                if (kind, base, d, "raises") not in untranslated_c:
+                    untranslated_c.add((kind, base, d, "raises"))
+                    ctx.violation(f"custom {kind} declared in {base} cannot be created for {d}: {e!r}"[:300],
+                                  {"case": {"creator": kind, "declared_dialect": base, "target_dialect": d, "sql": sql}, "implementation": repr(e)[:300],
+                                   "specification": f"translated from {base} to {d}"},
+                                  {"dialect": d, "custom_sql": True, "creator": kind, "declared_dialect": base, "raises": True})
                 continue
             gb, gd = SplinkDialect.from_string(base).sqlglot_dialect, SplinkDialect.from_string(d).sqlglot_dialect
             want = sql if d == base else sqlglot.parse_one(sql, read=gb).sql(dialect=gd)
@@ -373,5 +383,7 @@ def run(ctx: Ctx):
         try:
             from harness import c06_spark
             c06_spark.run(ctx)
-        except ImportError:
-            ctx.notes.append("Spark stage not available")
+        except ImportError as e:
+            ctx.obligation("Spark stage (thorough tier) importable", False, repr(e)[:200])
+            ctx.violation(f"the thorough-tier Spark stage could not be imported: {e!r}"[:300], {"broken": "harness.c06_spark / pyspark import"},
+                          {"spark_stage_missing": True}, found_input=False)
